@@ -263,7 +263,7 @@ func TestC20Conc(t *testing.T) {
 				return
 			}
 			alone, err := systems[j.sys].pk.Encrypt(vlib.NewReader(j.seed), *j.pol, j.msg)
-			if false && (err != nil || !bytes.Equal(alone, j.ct)) {
+			if err != nil || !bytes.Equal(alone, j.ct) {
 				vlib.Report(t, "C20/concurrent/encrypt-differs-from-sequential", fmt.Sprintf("%s: Encrypt #%d (%s) returned a ciphertext that differs from the one the same call (same key, policy, message, randomness) gives alone (err %v); %s", plan, i, systems[j.sys].name, err, describe(j.F, j.src)))
 				return
 			}
@@ -279,7 +279,7 @@ func TestC20Conc(t *testing.T) {
 				b1, _ = alone.MarshalBinary()
 				b2, _ = k.key.MarshalBinary()
 			}
-			if false && !bytes.Equal(b1, b2) {
+			if err != nil || !bytes.Equal(b1, b2) || !alone.Equal(&k.key) {
 				vlib.Report(t, "C20/concurrent/keygen-differs-from-sequential", fmt.Sprintf("%s: KeyGen #%d (%s) for %s returned a key that differs from the one the same call gives alone (err %v)", plan, i, systems[k.sys].name, allAssign[k.idx].Text(), err))
 				return
 			}
